@@ -9,6 +9,16 @@ fn main() {
     if id == "probe" {
         // vc-eval probe FILE.veryl — analyse a hand-written module and print every evaluated const
         let src = std::fs::read_to_string(&args[1]).expect("read");
+        if let Ok(n) = std::env::var("REPEAT") {
+            let n: usize = n.parse().unwrap_or(10);
+            let t0 = std::time::Instant::now();
+            for _ in 0..n {
+                let s = src.clone();
+                std::thread::Builder::new().stack_size(8 << 20).spawn(move || { let _ = c17lang::analyse(&s); }).unwrap().join().unwrap();
+            }
+            println!("{} analyses, {:.2} ms each", n, t0.elapsed().as_secs_f64() * 1000.0 / n as f64);
+            return;
+        }
         let t = std::thread::Builder::new().stack_size(16 << 20).spawn(move || match c17lang::analyse(&src) {
             Ok(a) => {
                 println!("errors: {:?}\nwarnings: {:?}", a.errors, a.warnings);
